@@ -173,8 +173,14 @@ def gen_recipes(rnd, n):
         elif r < 0.7:
             out.append({"k": "rexprs", "seed": sd, "count": 10, "depth": rnd.choice([2, 3, 5]), "style": style, "render": render,
                         "ctx": rnd.choice(list(cases.EXPR_CONTEXTS))})
-        elif r < 0.85:
+        elif r < 0.82:
             out.append({"k": "rdecls", "seed": sd, "count": 6, "style": style, "render": render})
+        elif r < 0.88:
+            # derivation sequences in every declarator context (parameter context: also [*], [quals *], [static n], (T0))
+            ctx = rnd.choice(cases.DECL_CONTEXTS + cases.TN_CONTEXTS + ["param", "param"])
+            nv = 16 if ctx == "param" else 8
+            out.append({"k": "derivs", "ctx": ctx, "seqs": [[rnd.randrange(nv) for _ in range(rnd.randrange(0, 4))] for _ in range(10)],
+                        "seed": sd, "style": style})
         else:
             out.append({"k": "rstmts", "seed": sd, "count": 2, "depth": rnd.choice([2, 3, 5]), "style": style, "render": render})
     return out
